@@ -146,6 +146,9 @@ func (e *Engine) entryEnv(fr *Frame) map[string]Val {
 	for i, p := range fr.fn.Params {
 		env[p.Name()] = fr.params[i]
 	}
+	for k, v := range fr.extraEnv {
+		env[k] = v
+	}
 	return env
 }
 
